@@ -116,6 +116,8 @@ DatumNoSrc == {RecAll, CtorE("Rec", "", <<F("f2", PB), F("f1", L1)>>, Absent),
                [k |-> "bool", flag |-> TRUE]}
 Addr1 == {Sender, Receiver, MyParty, Pol}
 Signer1 == {Sender, MyParty, Hex(KeyHash)}
+RefTo(t, ix) == [k |-> "utxo_ref", txid |-> [i \in 1..32 |-> t], index |-> ix]
+RefNames == <<"rfa", "rfb", "rfc">>
 Ref1 == {[k |-> "utxo_ref", txid |-> [i \in 1..32 |-> 7], index |-> 2]}
 
 \* ---- chain-specific blocks --------------------------------------------------------
@@ -170,6 +172,9 @@ SlotUniverse(s) ==
       [] s = "meta_value" -> Bytes1 \cup Str1 \cup (IF Depth = 0 THEN Int0 ELSE Int1)
       [] s = "reference" -> Ref1
       [] s = "min_amount" -> {AdaE(PN), Op("add", AdaE(PN), FeesE), Op("add", AdaE(PN), TokE(Lit(1))), TokE(Lit(2))}
+      \* two (three) reference blocks: outputs of one transaction, of two transactions, the same output twice
+      [] s = "two_references" -> {<<RefTo(7, 2), RefTo(7, 3)>>, <<RefTo(7, 3), RefTo(7, 2)>>, <<RefTo(7, 2), RefTo(8, 2)>>, <<RefTo(7, 2), RefTo(7, 2)>>,
+                                 <<RefTo(7, 0), RefTo(7, 1), RefTo(8, 0)>>, <<RefTo(9, 5), RefTo(7, 5), RefTo(9, 4)>>}
       \* ---- chain-specific blocks: the slot value is the block (or, for a donation, its coin expression)
       \* (the analyzer type-checks the coin and infers no type for env names, locals and built-in calls: left out, as for metadata labels)
       [] s = "donation" -> {Lit(7), PN, PM} \cup {Op(o, a, b) : o \in {"add", "sub"}, a \in {PN, Lit(7)}, b \in {PM, Lit(2)}}
@@ -231,6 +236,7 @@ WithSlot(s, e) ==
       [] s = "meta_value" -> [BaseTx EXCEPT !.metadata = [k |-> "some", items |-> <<[key |-> Lit(1), value |-> e], [key |-> Lit(674), value |-> Str(<<120>>)]>>]]
       [] s = "meta_key" -> [BaseTx EXCEPT !.metadata = [k |-> "some", items |-> <<[key |-> e, value |-> Hex(<<1>>)]>>]]
       [] s = "reference" -> [BaseTx EXCEPT !.references = <<[name |-> "rf", ref |-> e]>>]
+      [] s = "two_references" -> [BaseTx EXCEPT !.references = [i \in DOMAIN e |-> [name |-> RefNames[i], ref |-> e[i]]]]
       [] s = "b_out_amount" -> [BaseB EXCEPT !.outputs = <<Out("", FALSE, Receiver, e, Absent)>>]
       [] s = "b_mint" -> [BaseB EXCEPT !.mints = <<[amount |-> e, redeemer |-> Absent]>>]
       [] s = "b_burn" -> [BaseB EXCEPT !.burns = <<[amount |-> e, redeemer |-> Absent]>>]
